@@ -201,22 +201,24 @@ class RecordingDesigner(vza.PartiallySerializableDesigner):
     del seed
     self.n = 0
     self.lineage = None
-    self.fresh = True
+    self.fresh = True  # no state was loaded into this instance ...
+    self.updated = False  # ... and it has not been updated yet
 
   def update(self, completed, all_active):
     type(self).LOG.append({
-        'event': 'update', 'designer': id(self), 'fresh': self.fresh, 'n': self.n,
+        'event': 'update', 'fresh': self.fresh and not self.updated, 'n': self.n,
         'completed': sorted(t.id for t in completed.trials),
         'completed_x': {t.id: _x_of(t) for t in completed.trials},
         'active': sorted(t.id for t in all_active.trials),
     })
+    self.updated = True
 
   def suggest(self, count=None):
     out = []
     for _ in range(count or 1):
       out.append(vz.TrialSuggestion(O.param_values(type(self).SPACE, self.n)))
       self.n += 1
-    type(self).LOG.append({'event': 'suggest', 'designer': id(self), 'count': count, 'n': self.n})
+    type(self).LOG.append({'event': 'suggest', 'count': count, 'n': self.n})
     return out
 
   def dump(self):
